@@ -91,8 +91,9 @@ Proof.
     destruct o; cbn [astep wf_op2 wf_op] in *; try contradiction; rewrite ?C; try reflexivity.
     - destruct Wf as (ac & Ga & Hno & _). rewrite Ga. destruct (ac_peer ac) eqn:Ap; [reflexivity|].
       specialize (Hno eq_refl).
-      replace (ac_allow ac && negb (ac_allow ac && ep_allowed_peer c q (ac_ep ac))) with false; [reflexivity|].
-      destruct (ac_allow ac); [|reflexivity]. destruct Hno as [X|X]; [discriminate | rewrite X; reflexivity].
+      replace (ac_allow ac && negb (ac_allow ac && ep_allowed_peer c q (ac_ep ac))) with false.
+      2:{ destruct (ac_allow ac); [|reflexivity]. destruct Hno as [X|X]; [discriminate | rewrite X; reflexivity]. }
+      destruct (conn_par_nonempty st a i ac L Ga Ap) as (x0 & l0 & Ex). rewrite Ex. reflexivity.
     - destruct Wf as ((s & Gs) & _). rewrite Gs. destruct (as_proto s); reflexivity.
     - destruct Wf as ((s0 & Gs) & _). rewrite Gs. destruct (as_svc s0); [reflexivity|]. destruct (as_proto s0); reflexivity. }
   rewrite E in *. split; [|reflexivity]. rewrite (I_num _ _ _ I' t), (I_num _ _ _ I t). reflexivity.
